@@ -1039,6 +1039,7 @@ CHECKS = {
     "C08": {
         "bin": "c08",
         "level": "fault_enumeration",
+        "max_par": 20,
         "quick": {"shards": 20, "budget_s": 35, "min_evaluations": 100},
         "thorough": {"shards": 20, "budget_s": 1500, "min_evaluations": 6000},
         "rule": (
